@@ -18,7 +18,7 @@ def gen_config(rng, tier):
         if rng.random() < 0.75:
             ops[k] = w * rng.choice([0.5, 1.0, 2.0])
     faults = [f for f in ("coin_force", "remeasure", "view_operand") if rng.random() < 0.7]
-    return {"n": n, "steps": rng.randrange(4, 30), "ops": ops, "faults": faults,
+    return {"n": n, "steps": rng.randrange(4, 30) if tier != "thorough" else rng.randrange(4, 70), "ops": ops, "faults": faults,
             "flags": ["c06"], "max_slots": rng.choice([1, 2, 3])}
 
 
